@@ -64,7 +64,11 @@ STYLES = {
 KINDS = {"del": DelegatesTo, "proto": PrototypedFrom}
 
 
-def build_hop1(kind, style, class_prefix="d_", default_delegate=None, listenable=True):
+class Holder(HasTraits):
+    d = Instance(HasTraits)
+
+
+def build_hop1(kind, style, class_prefix="d_", default_delegate=None, listenable=True, link_via=False):
     name, prefix, tf = STYLES[style]
     # (default_delegate: the delegate is never assigned - it is the trait's own, constant, default object)
     ns = {"__prefix__": class_prefix, "d": Instance(type(default_delegate), default_delegate) if default_delegate is not None else Instance(HasTraits),
@@ -72,6 +76,10 @@ def build_hop1(kind, style, class_prefix="d_", default_delegate=None, listenable
     if kind == "proto":
         # a SECOND deferring attribute, declared later, for the same delegate and the same target
         ns["alias"] = PrototypedFrom("d", prefix=tf(class_prefix))
+    if link_via:
+        # the LINK attribute `d` is itself deferred (it lives on a holder object, never in this object's __dict__)
+        ns["holder"] = Instance(Holder, ())           # (present from the start: a missing holder at hook-up time is an error)
+        ns["d"] = DelegatesTo("holder")
     ns["__repr__"] = lambda self: "Q#%s" % self.__dict__.get("_n", "?")
     return type("Q", (HasTraits,), ns), name, tf(class_prefix)
 
@@ -124,6 +132,7 @@ def strategy(tier):
         "listenable": st.sampled_from([True, True, True, False]),
         "ctor_local": st.sampled_from([False, False, True]),
         "delegate_class": st.sampled_from([None, None, "falsy", "none"]),
+        "link_via": st.sampled_from([False, False, True]),
     })
 
 
@@ -144,8 +153,11 @@ def run(case, ctx):
     listenable = not (case.get("listenable") is False and not case["chain"])
     if not listenable:
         ctx.label("not-listenable")
+    link_via = bool(case.get("link_via")) and not case.get("default_delegate")
     Q, name1, target = build_hop1(kind1, style1, case.get("class_prefix", "d_"), ds[0] if case.get("default_delegate") else None,
-                                  listenable)
+                                  listenable, link_via)
+    if link_via:
+        ctx.label("link-attribute-itself-deferred")
     if case.get("default_delegate"):
         qs = [Q(), Q(d=ds[1])]           # the first object's delegate IS the default object of the trait, never assigned
         ctx.label("default-delegate")
